@@ -79,7 +79,9 @@ func DefaultCols() map[Ty][]Ident {
 	}
 }
 
-var intLits = []string{"0", "1", "2", "3", "7", "007", "0x2", "10", "1.5", ".5", "2.", "1e1", "0e0", "18446744073709551616", "9223372036854775807", "0xffffffffffffffff"}
+var intLits = []string{"0", "1", "2", "3", "7", "007", "0x2", "10", "1.5", ".5", "2.", "1e1", "0e0", "18446744073709551616", "9223372036854775807", "0xffffffffffffffff",
+	// upper-case markers, zero mantissas, leading zeros in every part
+	"0E0", "0E5", "00E1", "0E-3", "1E1", "0X1f", "0x00000000000000000ff", "00.50", "0.0E5", "000"}
 
 // function names that only look like built-ins: they are passed through by name
 var lookalikes = []string{"ISNULL", "IsNull", "ISNOTNULL", "STRCAT", "IFF", "Iif", "TOLOWER", "ToUpper", "NOW"}
